@@ -120,6 +120,7 @@ pub struct Interp<'p> {
     closure_born_in: Vec<u32>,
     /// number of compound expressions currently holding already-evaluated operands
     pending: u32,
+    pub mark_hits: u32,
 }
 
 pub struct RunResult {
@@ -132,6 +133,7 @@ pub struct RunResult {
     pub cov: [u32; 24],
     pub held_across_reentry: u32,
     pub escaped_closure_calls: u32,
+    pub mark_hits: u32,
 }
 
 pub fn run_program(p: &Program, max_steps: u64) -> RunResult {
@@ -147,6 +149,7 @@ pub fn run_program(p: &Program, max_steps: u64) -> RunResult {
         cov: it.cov,
         held_across_reentry: it.held_across_reentry,
         escaped_closure_calls: it.escaped_closure_calls,
+        mark_hits: it.mark_hits,
     }
 }
 
@@ -180,6 +183,7 @@ impl<'p> Interp<'p> {
             activation_live: vec![true],
             closure_born_in: Vec::new(),
             pending: 0,
+            mark_hits: 0,
         }
     }
 
@@ -941,6 +945,10 @@ impl<'p> Interp<'p> {
             }
             EKind::MaybeNone => Ok(Val::Variant(Rc::from("None"), None)),
             EKind::Raw(t) => dynerr("raw", format!("raw source text cannot be interpreted: {}", t)),
+            EKind::Mark(inner) => {
+                self.mark_hits += 1;
+                self.eval(inner, frame)
+            }
         }
     }
 
